@@ -3,7 +3,9 @@ import concurrent.futures
 import importlib
 import json
 import os
+import shutil
 import sys
+import tempfile
 import time
 
 from lsim import core
@@ -192,6 +194,23 @@ def run_check(prop, tier, seed):
   print('check %s engine=%s tier=%s VERIF_SEED=%d batches=%d repo=%s' % (
       prop, engine_name, tier, seed, plan['batches'], core.REPO))
   sys.stdout.flush()
+  shared = None
+  if hasattr(engine, 'prepare'):
+    # a directory shared by all children of this check run (made and removed here)
+    shared = tempfile.mkdtemp(prefix='lsim-shared-')
+    os.environ['LSIM_SHARED'] = shared
+    why = engine.prepare(shared, tier)
+    if why:
+      print('note: %s' % why)
+  try:
+    return _run_check(prop, tier, seed, engine_name, engine, plan, t)
+  finally:
+    if shared:
+      os.environ.pop('LSIM_SHARED', None)
+      shutil.rmtree(shared, ignore_errors=True)
+
+
+def _run_check(prop, tier, seed, engine_name, engine, plan, t):
   merged, failures, skipped = run_batches(engine_name, seed, tier, plan, prop)
   known = load_known(prop)
   known_hit = {}
